@@ -124,7 +124,7 @@ fn perm_index(p: &[usize]) -> usize {
 
 pub fn run(rep: &mut Report) {
     quiet_panics();
-    rep.rule = "exact: for every m in 1..=300 and random m up to 2^20 (2^22 thorough): blocks of m draws after reset and without reset are permutations; paired runs (k arbitrary draws + reset vs fresh) on the same generator stream give identical draws; constant generators at the top/bottom of the unit interval keep the index in range. statistical: all m! orders for m in 2..=5 (chi-square), position x value table for m in {8,32}, first draw for m=1000, each both right after reset and for the lazily wrapped second block. A case is (m, seed) for exact legs and (m, order) cells for the statistical ones; non-trivial when m >= 2".into();
+    rep.rule = "exact: for every m in 1..=300 and random m up to 2^20 (2^22 thorough): blocks of m draws after reset and without reset are permutations; paired runs (k arbitrary draws + reset vs fresh) on the same generator stream give identical draws; constant generators at the top/bottom of the unit interval keep the index in range. long: one instance per m in {2,3,5,8,16,64,257} goes through 1.4e5 (thorough 1.2e6) (draws, reset) cycles, every cycle compared draw by draw with a new shuffler on the same generator stream. statistical: all m! orders for m in 2..=5 (chi-square), position x value table for m in {8,32}, first draw for m=1000, each both right after reset and for the lazily wrapped second block. A case is (m, seed) for exact legs and (m, order) cells for the statistical ones; non-trivial when m >= 2".into();
     // ---------------- exact
     if rep.want("exact") {
         let seed = subseed(rep.seed, "C17/exact", &[]);
@@ -163,6 +163,57 @@ pub fn run(rep: &mut Report) {
             (0..5).map(|_| fy.next(&mut g)).collect()
         };
         rep.sample(json!({"leg": "exact", "m": 5, "first_block_example": ex}));
+    }
+    // ---------------- long histories: one instance goes through several hundred thousand (draws, reset) cycles; after every reset
+    // its draws are compared with those of a new shuffler fed the same generator stream
+    if rep.want("long") {
+        let seed = subseed(rep.seed, "C17/long", &[]);
+        let ncycles: usize = rep.tier.pick(140_000, 1_200_000);
+        let ms = [2usize, 3, 5, 8, 16, 64, 257];
+        let res: Vec<(usize, Result<u64, (String, String)>)> = ms
+            .par_iter()
+            .map(|&m| {
+                (m, catch(move || {
+                    let mut rng = rng_from(mix(&[seed, m as u64]));
+                    let mut used = FYshuffle::new(m);
+                    let mut nd = 0u64;
+                    for cycle in 0..ncycles {
+                        used.reset();
+                        let mut fresh = FYshuffle::new(m);
+                        let s = rng.next_u64();
+                        let mut g1 = rng_from(s);
+                        let mut g2 = rng_from(s);
+                        // mostly a few draws (as the sketchers do), sometimes a full block and more
+                        let k = match rng.random_range(0..8) {
+                            0 => m,
+                            1 => m + 1 + rng.random_range(0..m),
+                            2 => 0,
+                            _ => rng.random_range(1..=m.min(4)),
+                        };
+                        for i in 0..k {
+                            let a = used.next(&mut g1);
+                            let b = fresh.next(&mut g2);
+                            nd += 2;
+                            if a != b {
+                                return Err(("C17/history-dependence".to_string(), format!("m={} : after {} (draws, reset) cycles on one instance, draw {} after the reset is {} but a new shuffler fed the same generator stream gives {}", m, cycle, i, a, b)));
+                            }
+                        }
+                    }
+                    Ok(nd)
+                }).unwrap_or_else(|p| Err(("C17/panic".into(), format!("m={} panic: {}", m, p)))))
+            })
+            .collect();
+        for (m, r) in res {
+            rep.evaluations += ncycles as u64;
+            rep.distinct.insert(mix(&[m as u64, 0x10a6]));
+            match r {
+                Ok(nd) => {
+                    rep.count("long.draws_checked", nd);
+                    rep.count("long.reset_cycles", ncycles as u64);
+                }
+                Err((key, what)) => rep.violation(&key, "long", what, json!({"m": m})),
+            }
+        }
     }
     // ---------------- statistical
     if rep.want("stat") {
